@@ -57,7 +57,8 @@ CHECKS = {
              "each other. TYPE SOUNDNESS (Properties/C05Typing.v, Model/InputTyping.v has_type): a literal coerces to a value of "
              "the declared type or to 'invalid'; coerced variables are values of their declared types; rule 5.8.5 as "
              "implemented is a sub-typing check; hence every entry of the argument dictionary is a value of the argument's "
-             "declared type -- under named assumptions on the schema (scalar coercers return leaf values and never None, "
+             "declared type -- under named assumptions on the schema (scalar coercers return leaf values and never None: PROVED "
+             "for the five built-in scalars as regenerated from /repo, Proofs/BuiltinLeaves.v; literals are well-formed AST values; "
              "input field names unique; nothing is assumed of input-field defaults since the repair a67e006, found by this proof) and, for "
              "variables NESTED in list/object literals, under the premise that they are well-typed for their position (the "
              "engine does not apply 5.8.5 there: known finding C07-nested-variable-usage).",
@@ -78,7 +79,7 @@ CHECKS = {
              "engine on generated requests (aliases, repeated keys, fragment DAGs with sharing, type conditions, "
              "@skip/@include incl. both on one node, variables incl. null at defaulted non-null arguments, three ways of naming "
              "the runtime type) and compared inside Coq on data, errors and the resolver call log; each observation is also "
-             "judged by the specification executor. PARTIAL: equality of the resolver call log with the specification's is "
+             "judged by the specification executor. Also proved (Proofs/ExecCalls.v): the resolver invocations of a request are at pairwise different response paths (no resolver is called twice for one response key and parent), for every configuration. PARTIAL: equality of the resolver call log with the specification's is "
              "decided per run.",
         note="Trusted: Coq kernel, correspondence harness + generators, parser stand-in; directive hooks other than "
              "@skip/@include absent (C13); errors and call log compared as multisets; message texts not compared.",
@@ -114,7 +115,10 @@ CHECKS = {
              "produced by the scalar serialiser (built-ins: C10 wire theorems) or declared enum values; execute never "
              "raises. The model is tied to /repo by running generated requests with adversarial resolver data (rate "
              "0.3) through the real engine; each response is also checked structurally (confb) and for JSON "
-             "serialisability.",
+             "serialisability. Also proved (Proofs/ExecJson.v): conforming data is a JSON value whenever every scalar's "
+             "serialiser produces JSON values, which the five built-in scalars as regenerated from /repo do "
+             "(C03_builtin_schema_data_is_json), and their leaves have their wire type: Int within 32 bits, Float finite, "
+             "String/ID text, Boolean a boolean (C03_builtin_leaves_have_their_wire_type).",
         note="Trusted: as C01. Numeric types outside the stated universe (Decimal, Fraction, numpy) are not generated.",
         design="4 C03"),
     "C08": dict(
@@ -135,8 +139,10 @@ CHECKS = {
              "executor written in the calculus, run with every coroutine completing at once, IS the state-passing executor of "
              "C01-C03 (same data, errors and invocations in order: Proofs/AsyncBridge.v), hence under EVERY schedule and EVERY "
              "sibling configuration a request for which the specification's algorithm has a result is answered with exactly "
-             "that data, and with the errors and invocations of the sequential run up to order. PARTIAL: the list- and "
-             "argument-coercion options are decided per run (the state-passing model does not distinguish them); the asyncio "
+             "that data, and with the errors and invocations of the sequential run up to order; under every schedule no resolver is "
+             "started twice for one response path (C08_no_resolver_called_twice) (sibling and list strategies, "
+             "engine-wide or per field, are part of the configuration the theorems quantify over). PARTIAL: the "
+             "argument-coercion option (gather / one by one) is decided per run (the models do not distinguish it); the asyncio "
              "runtime is outside the model.",
         note="Trusted: as C01 + the gated scheduler driver; asyncio task wake-up order beyond FIFO start, gather internals, "
              "cancellation, timeouts, thread-pool resolvers are runtime behaviour the model cannot exhibit.",
@@ -188,7 +194,11 @@ CHECKS = {
              "satisfies the specification's node predicates with the scope handed down /\\ acyclic /\\ unique names /\\ lone "
              "anonymous /\\ spread targets defined /\\ fragments used /\\ five rule functions quiet; single root field "
              "(Proofs/SingleRoot.v): a subscription whose reachable root fields -- through inline fragments and spreads, "
-             "however often written -- share ONE response key is not refused. The check "
+             "however often written -- share ONE response key is not refused; possible spreads (Proofs/ValidateSpreads.v): what the "
+             "walk records of inline fragments and spreads is a pure function of the document and rule 5.5.2.3 reports nothing "
+             "exactly when each can apply in its scope; the per-operation / per-fragment books the three variable rules read are a "
+             "pure function of the document (Proofs/ValidateScopes.v), hence ACCEPTANCE IS A PREDICATE OF THE DOCUMENT: no conjunct "
+             "of its characterisation mentions the shared walk context any more (C06_acceptance_is_a_predicate_of_the_document). The check "
              "generates structured valid documents (fragment DAGs with sharing, several named operations reaching shared "
              "fragments by different routes, variables only inside fragments, directives in all 7 executable locations, "
              "meta-fields and introspection selections, identical repeated fields, one-key subscriptions) on generated schemas; "
@@ -224,7 +234,9 @@ CHECKS = {
              "C07_violating_document_refused: a document with any node violating a node predicate at any depth, a cyclic "
              "fragment graph, a repeated name, a second anonymous operation, an undefined spread target or an unused fragment "
              "is not accepted; a subscription reaching two different root response keys through fields and inline fragments at "
-             "any nesting is reported by single-root-field and the document is not accepted (C07_two_root_keys_refused). Two "
+             "any nesting is reported by single-root-field and the document is not accepted (C07_two_root_keys_refused); an inline "
+             "fragment or a spread of a defined fragment that cannot apply in its scope, wherever it sits, makes the document "
+             "not accepted (rule 5.5.2.3 EXACT: C07_possible_spreads_rule_exact, `applies_in` = the specification's). Two "
              "recorded findings (known_findings.json) are attributed by Coq-evaluated region predicates. PARTIAL: completeness "
              "of the other rules at every site is decided per document, not proved.",
         note="Trusted: as C06. Documents with non-executable definitions are outside the document model (engine side only).",
@@ -311,7 +323,7 @@ CHECKS = {
              "consumes the real async stream event by event for generated subscription documents x event sequences "
              "(well-formed payloads, nulls, garbage), compares each response with the engine's own execute("
              "initial_value=event), with the implementation model, with the specification executor, and checks the "
-             "source is started once with the model's coerced arguments. PARTIAL: aclose/cancellation are runtime.",
+             "source is started once with the model's coerced arguments. Validation in front of the executor (Model/SubscribeValidated.v): a document the walk refuses -- e.g. two different root response keys through fields and inline fragments -- is answered with one errors-only response and no stream is created; an accepted one is executed unchanged. PARTIAL: aclose/cancellation are runtime.",
         note="Trusted: as C01; the async-generator protocol is outside the model.",
         design="4 C14"),
     "C18": dict(
